@@ -76,6 +76,10 @@ ALLBELT = ["src/crypto/belt/belt_%s.c" % m for m in ("kwp", "wbl", "che", "dwp",
 GROUPS.append(G("relations.kwp_che_bde_sde.search", "harness/C01/relations.c", "h_relations", ALLBELT, level="N", backend="native", search=60000,
                 fn=["beltKWPWrap", "beltKWPUnwrap", "beltCHEWrap", "beltCHEUnwrap", "beltDWPUnwrap", "beltBDEEncr", "beltBDEDecr", "beltSDEEncr", "beltSDEDecr"],
                 note="inversion and single-bit alteration relations (token, tag, header, associated data, key, iv); NOT proof and not a standard-level spec"))
+import importlib.util as _iu, os as _os
+_sp = _iu.spec_from_file_location("plan_C10_for_C01", _os.path.join(_os.path.dirname(__file__), "C10.py"))
+_c10 = _iu.module_from_spec(_sp); _sp.loader.exec_module(_c10)
+GROUPS += [dict(g, name="steps." + g["name"]) for g in _c10.GROUPS if g["name"] == "belt.frag3.search"]
 TRUSTED = ["stubs/belt_uf.c: uninterpreted block function with the inverse axiom (discharged separately on belt_block.c)"]
 ASSUMPTIONS = ["mode, MAC and DWP specs are the author's rendering of STB 34.101.31; validated natively against the real code, which passes the standard's test vectors in the repository's suite"]
 NOT_COVERED = ["CHE, WBL/KWP, hash, BDE/SDE, KRP, HMAC, PBKDF2 against the standard (only relations in C10/C11/C09)", "DWP under CBMC (attempted only)"]
